@@ -20,10 +20,21 @@ import (
 	"time"
 )
 
-const (
-	repoDir  = "/repo"
-	verifDir = "/verif"
-)
+const repoDir = "/repo"
+
+// verifDir is the directory the machinery runs from: /verif, or a snapshot of
+// it (`vp run`); ./run changes into its own directory before starting orch.
+var verifDir = func() string {
+	if d := os.Getenv("VERIF_DIR"); d != "" {
+		return d
+	}
+	if wd, err := os.Getwd(); err == nil {
+		if _, err := os.Stat(filepath.Join(wd, "harness", "go.mod")); err == nil {
+			return wd
+		}
+	}
+	return "/verif"
+}()
 
 type outLine struct {
 	K       string                 `json:"k"`
